@@ -1,22 +1,36 @@
-//! Coverage-guided search for C04 (default API): first byte selects the integer type, the rest is
-//! the input text; the reference scan + str::parse differential of the proptest check decide.
+//! Coverage-guided search for C04: byte 0 selects the integer type, the multi-digit option and the
+//! mode, byte 1 the compiled format (every radix of the build), the rest is the input text. Oracle:
+//! the reference scan of the proptest check (complete and partial parser), and for the default API
+//! additionally the str::parse differential.
 #![no_main]
 use libfuzzer_sys::fuzz_target;
 use vcore::report::Local;
 
 fuzz_target!(|data: &[u8]| {
-    if data.is_empty() {
+    if data.len() < 2 {
         return;
     }
-    let text = &data[1..];
+    let text = &data[2..];
     let mut l = Local::new();
-    macro_rules! go {
-        ($($i:expr => $t:ty),*) => {
-            match data[0] % 12 { $($i => checks::c04::check_default::<$t>(text, &mut l),)* _ => Ok(()) }
-        };
-    }
-    let r = go!(0 => u8, 1 => u16, 2 => u32, 3 => u64, 4 => u128, 5 => usize, 6 => i8, 7 => i16, 8 => i32, 9 => i64, 10 => i128, 11 => isize);
-    if let Err(f) = r {
-        panic!("VIOLATION property=C04 {}", f.message);
+    let ty = (data[0] % 12) as usize;
+    static ENTRIES: std::sync::OnceLock<Vec<usize>> = std::sync::OnceLock::new();
+    // one plain format per radix of the build (the entries the proptest check uses)
+    let entries = ENTRIES.get_or_init(|| checks::cat::cat().radix_entries().iter().map(|&(_, ei)| ei).collect());
+    if data[0] & 0x40 != 0 {
+        macro_rules! go {
+            ($($i:expr => $t:ty),*) => {
+                match ty { $($i => checks::c04::check_default::<$t>(text, &mut l),)* _ => Ok(()) }
+            };
+        }
+        let r = go!(0 => u8, 1 => u16, 2 => u32, 3 => u64, 4 => u128, 5 => usize, 6 => i8, 7 => i16, 8 => i32, 9 => i64, 10 => i128, 11 => isize);
+        if let Err(f) = r {
+            panic!("VIOLATION property=C04 {}", f.message);
+        }
+    } else {
+        let entry = entries[data[1] as usize % entries.len()];
+        let case = checks::c04::Case { ty, entry, text: text.to_vec(), no_multi_digit: data[0] & 0x80 != 0, class: "fuzz" };
+        if let Err(f) = checks::c04::check_case(&case, &mut l) {
+            panic!("VIOLATION property=C04 {}", f.message);
+        }
     }
 });
